@@ -162,6 +162,8 @@ def main():
     ap.add_argument("--timeout", type=int, default=900)
     ap.add_argument("--out", default=None)
     ap.add_argument("--list", action="store_true")
+    ap.add_argument("--covmap", default=str(VERIF / "mutscan" / "covmap.json"), help="line -> checks map from tools/covmap.py; mutants on lines no check executes are listed as 'uncovered'")
+    ap.add_argument("--maxchecks", type=int, default=6)
     a = ap.parse_args()
     lo, hi = (int(v) for v in a.lines.split("-"))
     src = (REPO / a.file).read_text()
@@ -179,9 +181,19 @@ def main():
         done = {json.loads(ln)["mutant"] for ln in out.read_text().splitlines() if ln.strip()}
     checks = a.checks.split(",")
     tests = [t for t in a.tests.split(",") if t]
+    cov = json.load(open(a.covmap)).get(a.file, {}) if a.covmap and os.path.exists(a.covmap) else None
+    cheap = ["C03", "C19", "C02", "C12", "C16", "C04", "C18", "C08", "C14", "C13", "C06", "C17", "C07", "C01", "C05", "C11", "C10", "C20", "C09", "C15"]
+    all_checks = checks
     for r, desc, new in muts:
         if desc in done:
             continue
+        if cov is not None:
+            cl = cov.get(str(r), [])
+            if not cl:
+                with out.open("a") as fh:
+                    fh.write(json.dumps({"file": a.file, "mutant": desc, "line": src.splitlines()[r - 1].strip()[:120], "result": "uncovered"}) + "\n")
+                continue
+            checks = ([c for c in all_checks if c in cl] + [c for c in cheap if c in cl and c not in all_checks])[: a.maxchecks]
         root = Path(tempfile.mkdtemp(prefix="mutscan-", dir="/tmp"))
         try:
             shutil.copytree(REPO / "tdgl", root / "tdgl", ignore=shutil.ignore_patterns("__pycache__"))
